@@ -243,7 +243,7 @@ fn write_chain(c: &WCfg, out: &mut Outcome<C11Trace>) -> Result<Vec<u8>, Fail> {
         for (i, m) in c.msgs.iter().enumerate() {
             let (fired_before, intr_before) = {
                 let l = log.borrow();
-                (l.any_fault_fired(), l.interrupted + l.zero_once)
+                ((l.hard_fired, l.zero_fired, l.flush_fired), l.interrupted + l.zero_once)
             };
             let r = write_one(c.adapter, m, writer.take().unwrap());
             out.evals += 1;
@@ -251,7 +251,9 @@ fn write_chain(c: &WCfg, out: &mut Outcome<C11Trace>) -> Result<Vec<u8>, Fail> {
             if l.cap_hit && l.zero_answers <= 1000 {
                 return Err(Fail { clause: "harness-cap", detail: String::new() });
             }
-            let fired_now = l.any_fault_fired() && !fired_before;
+            // (each kind of failure on its own: a caller that survived a retryable hard error
+            // in an earlier message may meet the device's next failure in this one)
+            let fired_now = (l.hard_fired, l.zero_fired, l.flush_fired) != fired_before;
             // Interrupted and a one-off Ok(0) are not failures of the writer: the library may retry
             // or give up; either way only integrity is judged
             let interrupted = l.interrupted + l.zero_once > intr_before;
